@@ -648,6 +648,8 @@ def generate(env: Env, rseed: int, thorough: bool):
                     op = C10.draw_op(g, eng)
                     if op[0] in ("render", "render_all") and g.random() < 0.5:
                         continue
+                    if op[0] == "share_note":
+                        continue    # C10's business (and its known finding), not part of C17's prefixes
                     if eng.step(op, len(ops), False) != "veto":
                         ops.append(op)
                         break
